@@ -135,21 +135,56 @@ def run(p, led, tier):
             led.fail("C06-R4", f"{label} ▸ counts", where_, bad_counts[0])
     led.extra["cells_no_permit"] = total_cells
 
-    # ---------------- R2 unanimous
+    # ---------------- R2 unanimous (whatever custom threshold is configured)
     bad2, n2 = [], 0
-    for n in range(1, max_n + 1):
-        for comp in comps(n):
-            if comp[1] == 0:
-                continue
-            n2 += 1
-            for r in [r for _, r in explore(lambda o: aggregate(o, qs, "UNANIMOUS", None, comp, "wide"), max_paths=500)]:
-                if r.get("reached") is not False:
-                    bad2.append(f"p/b/a/d={comp}: reached={r.get('reached')}")
-    key = "QuorumSensing UNANIMOUS ▸ any block defeats it"
+    for thr in (None, 0.3, 0.75, 3):
+        for n in range(1, max_n + 1):
+            for comp in comps(n):
+                if comp[1] == 0:
+                    continue
+                n2 += 1
+                for r in [r for _, r in explore(lambda o: aggregate(o, qs, "UNANIMOUS", thr, comp, "wide"), max_paths=500)]:
+                    if r.get("reached") is not False:
+                        bad2.append(f"custom threshold {thr}, ballot p/b/a/d={comp}: reached={r.get('reached')}")
+    key = "QuorumSensing UNANIMOUS ▸ any block defeats it (default and custom thresholds)"
     if bad2:
-        led.fail("C06-R2", key, where(agg, agg.node), f"{bad2[0]}")
+        led.fail("C06-R2", key, where(agg, agg.node), f"{len(bad2)} ballot(s) with a BLOCK vote are reached, e.g. {bad2[0]}", witness="UNANIMOUS with threshold=0.75 and ballots P,P,P,B → PERMIT")
     else:
-        led.ok("C06-R2", key, where(agg, agg.node), f"{n2} ballots with ≥1 block: never reached")
+        led.ok("C06-R2", key, where(agg, agg.node), f"{n2} ballots with ≥1 block over thresholds None/0.3/0.75/3: never reached")
+
+    # ---------------- R6 count criterion follows the *current* colony (membership changed through the API after configuration)
+    import math as _math
+    add = p.find_method(qs, "add_agent")
+    rem = p.find_method(qs, "remove_agent")
+    led.rule("C06-R6", "the count strategy's criterion is evaluated against the current colony, also after agents were added or removed", 2)
+    for cls_, thr, label in ((qs, None, "QuorumSensing THRESHOLD default"), (eq, None, "EmergencyQuorum (fraction 0.3)")):
+        bad6, n6 = [], 0
+        for start, end in ((2, 5), (5, 2), (3, 3)):
+            for permits in range(0, end + 1):
+                def go6(o):
+                    it = Interp(p, o)
+                    qo = mk_quorum(it, cls_, "THRESHOLD", thr, start)
+                    if end > start and add is not None:
+                        for i in range(end - start):
+                            it.call_fi(add, [qo, f"late{i}"], {})
+                    if end < start and rem is not None:
+                        for prof in list(qo.fields["colony"])[end:]:
+                            it.call_fi(rem, [qo, prof.fields["agent"].fields["name"]], {})
+                    size = len(qo.fields["colony"])
+                    vs = ballots(it, (permits, size - permits, 0, 0), 1.0, 1.0)
+                    r = it.call_fi(agg, [qo, vs], {})
+                    return (size, r.fields["reached"])
+                for _, (size, reached) in explore(go6, max_paths=50):
+                    n6 += 1
+                    need = max(1, _math.ceil(0.3 * size)) if cls_ is eq else size // 2 + 1
+                    if reached is not (permits >= need):
+                        bad6.append(f"colony {start}→{size}, {permits} permit / {size - permits} block: reached={reached}, criterion needs {need}")
+        key = f"{label} ▸ criterion after membership changes"
+        if bad6:
+            led.fail("C06-R6", key, where(agg, agg.node), f"{len(bad6)} of {n6} ballots decided against the stated criterion, e.g. {bad6[0]}",
+                     witness="EmergencyQuorum built with 2 agents, grown to 7: 1 PERMIT vs 6 BLOCK is reported PERMIT")
+        else:
+            led.ok("C06-R6", key, where(agg, agg.node), f"{n6} ballots over grown / shrunk / unchanged colonies: reached ⇔ permits ≥ required(current size)")
 
     # ---------------- R3 unanimous permit ⇒ PERMIT ; R4 counts
     for strat in strategies:
